@@ -76,6 +76,28 @@ func c02Scenarios(tier string) []*Scenario {
 			}
 		}
 	}
+	// ordered shutdown: a is stopped only after its dependent b has died; a may exit by itself meanwhile
+	for _, pol := range []string{"always", "on_failure"} {
+		for _, bo := range []int{0, 2} {
+			for _, codes := range [][]int{{1}, {1, 1}} {
+				pc := PC{Name: "a", Restart: pol, Backoff: bo}
+				launches := append(exits(codes...), []Action{})
+				sc := &Scenario{
+					ID:         fmt.Sprintf("c02-ordered-%s-bo%d-%v", pol, bo, codes),
+					YAML:       projectYAML(nil, pc, PC{Name: "b", Deps: map[string]string{"a": "process_started"}}),
+					Procs:      map[string]*ProcScript{"a": {Launches: launches}, "b": {}},
+					K:          k,
+					TickBudget: len(codes) + 1,
+					Ordered:    true,
+				}
+				bUp := func(w *World) bool { return w.launches["b#0"] > 0 }
+				sc.API = [][]APICall{{{Op: "shutdown", When: bUp}}}
+				pol, bo := pol, bo
+				sc.Check = func(w *World) []Violation { return c02Check(w, pol, 0, bo, "shutdown") }
+				scs = append(scs, sc)
+			}
+		}
+	}
 	return scs
 }
 
@@ -160,6 +182,10 @@ func c02Check(w *World, pol string, mx, bo int, stop string) []Violation {
 		if next >= 0 {
 			if gap := tr[next].T - e.T; gap < minGap {
 				vs = append(vs, viol("C02", "gap-too-short", "relaunch %v after exit, back-off %v", gap, minGap))
+			}
+			if stopBefore && !e.Flag {
+				// the command exited by itself after the stop / shutdown had been requested
+				vs = append(vs, viol("C02", "relaunch-after-stop-request:"+statusAt(tr, "a", stopReq), "exit #%d happened after the %s request and was still followed by a relaunch", n, stop))
 			}
 			if !stopBefore && !allowed {
 				vs = append(vs, viol("C02", "relaunch-forbidden:"+orDash(pol), "exit #%d code %d was followed by a relaunch (policy %q, max %d)", n, e.Code, pol, mx))
